@@ -42,11 +42,14 @@ type Commit struct {
 type Op struct {
 	K       string  `json:"k"` // add | proc | probe
 	C       *Commit `json:"c,omitempty"`
+	VC      *VCommit `json:"vc,omitempty"`
 	Strag   int     `json:"st,omitempty"`
 	Timeout bool    `json:"to,omitempty"`
 }
 
 type Case struct {
+	Mode    string   `json:"mode,omitempty"`   // "" = pool stream, "verify" = verify-then-add stream
+	Latest  string   `json:"latest,omitempty"` // verify mode: round of the latest block
 	Tag     string   `json:"tag"`
 	Members []Member `json:"m"`
 	Ops     []Op     `json:"ops"`
@@ -125,6 +128,7 @@ type runResult struct {
 	coqOps   []string
 	coqObs   []string
 	coqSnap  []string
+	blk      string // verify mode: Coq term for the block info
 	violated string
 	nontriv  bool
 	stats    map[string]int
@@ -284,6 +288,9 @@ func rankOf(ms []Member, round uint64, node int) (uint64, bool) {
 }
 
 func runCase(c Case) (res runResult) {
+	if c.Mode == "verify" {
+		return runVCase(c)
+	}
 	res.stats = map[string]int{}
 	com := buildCommittee(c.Members)
 	pool := commitment.NewPool()
@@ -346,7 +353,7 @@ func runCase(c Case) (res runResult) {
 			if err == nil && !panicked {
 				ledger = append(ledger, accepted{o.C.Node, o.C.Sched, o.C.Fail, vote})
 			}
-			res.coqObs = append(res.coqObs, fmt.Sprintf("(%d, None, %d, %s)", code, pool.HighestRank, coqout.Bool(pool.Discrepancy)))
+			res.coqObs = append(res.coqObs, fmt.Sprintf("(%d, noCh, %d, %s)", code, pool.HighestRank, coqout.Bool(pool.Discrepancy)))
 		case "proc", "probe":
 			res.coqOps = append(res.coqOps, fmt.Sprintf("%s %d %s", map[string]string{"proc": "OProc", "probe": "OProbe"}[o.K], o.Strag, coqout.Bool(o.Timeout)))
 			p := pool
@@ -368,7 +375,7 @@ func runCase(c Case) (res runResult) {
 				sc, err = p.ProcessCommitments(com, uint16(o.Strag), o.Timeout)
 			}()
 			code, name := procClass(err)
-			chosen := "None"
+			chosen := "noCh"
 			if panicked {
 				code, name = 16, "panic"
 				if verifiedShape {
@@ -376,7 +383,7 @@ func runCase(c Case) (res runResult) {
 				}
 			} else if err == nil {
 				if sc == nil || sc.Commitment == nil {
-					chosen = "(Some None)"
+					chosen = "(Some noPair)"
 					if verifiedShape {
 						violate(fmt.Sprintf("op %d: finalized without a scheduler commitment", i))
 					}
@@ -435,7 +442,7 @@ func runCase(c Case) (res runResult) {
 	sort.Slice(ranks, func(a, b int) bool { return ranks[a] < ranks[b] })
 	for _, r := range ranks {
 		sc := pool.SchedulerCommitments[r]
-		cn := "None"
+		cn := "noN"
 		if sc.Commitment != nil {
 			cn = fmt.Sprintf("(Some %d)", pkIndex(sc.Commitment.NodeID))
 		}
@@ -448,7 +455,7 @@ func runCase(c Case) (res runResult) {
 		for _, n := range nodes {
 			v := sc.Votes[pk(n)]
 			if v == nil {
-				vs = append(vs, fmt.Sprintf("(%d, None)", n))
+				vs = append(vs, fmt.Sprintf("(%d, noN)", n))
 			} else {
 				vs = append(vs, fmt.Sprintf("(%d, Some %d)", n, in.id(*v)))
 			}
@@ -673,7 +680,7 @@ func shrink(c Case, what string) Case {
 	for changed {
 		changed = false
 		for i := len(c.Ops) - 1; i >= 0; i-- {
-			n := Case{Tag: c.Tag, Members: c.Members}
+			n := Case{Mode: c.Mode, Latest: c.Latest, Tag: c.Tag, Members: c.Members}
 			n.Ops = append(append([]Op{}, c.Ops[:i]...), c.Ops[i+1:]...)
 			if len(n.Ops) > 0 && fails(n) {
 				c, changed = n, true
@@ -692,13 +699,41 @@ func main() {
 	exhLen := flag.Int("exh-len", 2, "exhaustive scope: max sequence length")
 	out := flag.String("out", "", "output directory")
 	replay := flag.String("replay", "", "replay a case description (JSON file)")
+	mode := flag.String("mode", "pool", "pool | verify")
 	flag.Parse()
+	vInit()
 	if *out == "" {
 		fmt.Fprintln(os.Stderr, "need -out")
 		os.Exit(2)
 	}
+	var replayCase *Case
+	if *replay != "" {
+		b, err := os.ReadFile(*replay)
+		if err != nil {
+			panic(err)
+		}
+		var c Case
+		var wrap struct {
+			Case *Case `json:"case"`
+		}
+		if json.Unmarshal(b, &wrap) == nil && wrap.Case != nil {
+			c = *wrap.Case
+		} else if err := json.Unmarshal(b, &c); err != nil {
+			panic(err)
+		}
+		replayCase = &c
+		if c.Mode == "verify" {
+			*mode = "verify"
+		} else {
+			*mode = "pool"
+		}
+	}
 	hdr := "From Verif Require Import Lib.Base Roothash.Pool.\n"
 	w := coqout.NewWriter(*out, hdr, "run_case", "case_eqb", 400)
+	if *mode == "verify" {
+		hdr = "From Verif Require Import Lib.Base Roothash.Pool Roothash.Verify.\n"
+		w = coqout.NewWriter(*out, hdr, "run_vcase", "case_eqb", 400)
+	}
 	sum := coqout.NewSummary("(1) exhaustive: all sequences of <= exh-len commitments over (members + one non-member) x (every worker as scheduler) x {agree, dissent A, dissent B, failure} for every committee with primary 1..exh-np, backup 0..exh-nb and every overlap, with ProcessCommitments probed on a copy of the pool after every prefix for stragglers 0..2 with and without timeout and one seeded state-changing call; (2) seeded structured rounds on committees 1..3 + 0..3 and 3..12 + 0..12 (scheduler proposes, members vote in a random order, 0/10/35% dissent, 0/10/30% failures, duplicates, non-members, other schedulers, 12% malformed: shuffled or invalid roles, duplicate members, mixed rounds, rounds near 2^64). non-trivial = some process call returned something other than still-waiting / no-scheduler-commitment; distinct = distinct case descriptions")
 	seen := map[string]bool{}
 	nviol := 0
@@ -722,6 +757,9 @@ func main() {
 		}
 		sum.Sample(c, 3)
 		term := fmt.Sprintf("((%s, %s), (%s, %s))", coqCommittee(c.Members), coqout.List(res.coqOps), coqout.List(res.coqObs), coqout.List(res.coqSnap))
+		if c.Mode == "verify" {
+			term = fmt.Sprintf("((%s, %s, %s), (%s, %s))", res.blk, coqCommittee(c.Members), coqout.List(res.coqOps), coqout.List(res.coqObs), coqout.List(res.coqSnap))
+		}
 		w.Add(term, map[string]any{"case": c})
 		if res.violated != "" && nviol < 5 {
 			nviol++
@@ -730,21 +768,14 @@ func main() {
 			sum.Violations = append(sum.Violations, map[string]any{"what": r2.violated, "case": c2})
 		}
 	}
-	if *replay != "" {
-		b, err := os.ReadFile(*replay)
-		if err != nil {
-			panic(err)
+	if replayCase != nil {
+		handle(*replayCase)
+	} else if *mode == "verify" {
+		sum.Rule = "verify-then-add rounds as in the roothash application: well-formed committees 1..4 + 0..3 with overlaps, latest block round 0..9, every commitment signed by a node key; 10/30/60% of the commitments carry one deviation (header round = latest, latest+2, or a future round mapping the scheduler to rank 0; wrong previous hash; scheduler id of a backup worker / non-member; the scheduler's own failure; non-member signer; wrong messages hash; corrupted or foreign signature; missing / superfluous header fields; invalid failure code). non-trivial = some process call returned something other than still-waiting / no-scheduler-commitment"
+		r := prng.New(*seed ^ 0x5eed)
+		for i := 0; i < *n; i++ {
+			handle(genVCase(r.Fork()))
 		}
-		var c Case
-		var wrap struct {
-			Case *Case `json:"case"`
-		}
-		if json.Unmarshal(b, &wrap) == nil && wrap.Case != nil {
-			c = *wrap.Case
-		} else if err := json.Unmarshal(b, &c); err != nil {
-			panic(err)
-		}
-		handle(c)
 	} else {
 		r := prng.New(*seed)
 		for l := 1; l <= *exhLen; l++ {
